@@ -45,6 +45,18 @@ CLAIMED['C18'] = dict(
     text='Reflection proof: all ~1,800 PDF mappings and the field trees of the 39 bundled templates (names, kinds, /MaxLen, on-states, accessibility text with parsed line labels) are REGENERATED on every run and every obligation (507: targets exist, no field driven twice, kinds, length limits, export values, choice lists, labels, mapped lines exist, fileable forms complete, exclusive groups at most one on for every value of the driving line) is closed by decide +kernel with proved-sound checkers. The same checks are evaluated independently on the real objects.',
     note='Trusted: Lean kernel; own PDF/XFA extractor (two routes cross-checked: AcroForm chain vs XFA tree, plus the pdftk listings in the form sources) and label grammar; two documented template-text errata excluded from the label check; one recorded naming finding (Schedule B 7b).',
     technique='regenerated tables + decide +kernel reflection with proved-sound checkers', ref='7/C18')
+CLAIMED['C06'] = dict(
+    text='Machine-checked proof (Lean 4) that the dependency bookkeeping refines a multiset of (dependency, waiter) pairs for EVERY history of add_unmet / meet / next() (generator steps interleaved with registrations): a waiter is released only for a met dependency, every registered wait on a met dependency is released exactly once by a drain, none is lost or released twice, the generator never crashes and a drain ends within waiters+1 steps; plus: a prompt happens only for an absent input and an answered input stays present (at most one answered prompt per input), blocked lines are reported. PARTIAL: termination of the outer loop and the per-line attempt bound are not proved — they are explored on the real solver (generated cyclic / self-referential / dangling programs, refusing prompts) with counters and a watchdog.',
+    note='Trusted: Lean kernel; tracker and solver models validated differentially (tracker stream incl. bounded-exhaustive histories). Termination and attempt bound: exploration only.',
+    technique='Lean 4 refinement proof over all tracker histories + exploration of work bounds on the real solver', ref='7/C06')
+CLAIMED['C07'] = dict(
+    text='Reflection + general proof: TAX_TABLE and TAX_WORKSHEET_VALUES of the three years are REGENERATED from the working tree (decimal literals exact) and checked in the Lean kernel (decide +kernel) against independently entered bracket schedules: rows contiguous from 0 to 100000, every cell = tax at the row midpoint rounded half-up, columns non-decreasing, each worksheet row identical to the bracket formula as a linear function on its interval, junctions, QSS = MFJ. General theorems lift this to EVERY rational income in [0, 1e12]: defined, equal to the schedule, non-decreasing, marginal rate bound. The real figure_tax is compared with an exact-Fraction copy of the schedule on every row, every bracket edge +- a cent and sampled incomes (thorough: every whole dollar).',
+    note='Trusted: Lean kernel; Spec/Brackets.lean (Rev. Proc. values); tools/gen_c07.py (probes the real figure_tax against its reading of the code). Theorems are over the exact-rational reading; float evaluation covered by the oracle and the F64 model.',
+    technique='regenerated tables + decide +kernel reflection, lifted by general Lean theorems', ref='7/C07')
+CLAIMED['C13'] = dict(
+    text='Machine-checked proof (Lean 4) on the solver model: a prompt is issued only for an input that is declared, absent, and read by every line quoted as needing it (prompt_is_demand_exact); the final inputs are exactly the file plus answers to inputs the file lacked; a re-run (any schedule) on the written-back inputs acquires no new input and yields the identical verdict, values, lines, forms and diagnostics (rerun_silent_and_identical, via the least-closed-state argument across two different files); inputs an evaluation does not read cannot influence it. Write-back/read-back of the file itself is Ini/Cli round-trip lemmas. Checked on real runs: prompts vs recorded reads, real write-back + re-solve incl. resumed sessions, dropping never-read inputs.',
+    note='Trusted: Lean kernel; solver and Ini models validated differentially; prompt absent or total for the re-run theorem.',
+    technique='Lean 4 invariant + confluence proof across two input files + differential correspondence', ref='7/C13')
 NOT_YET = {}
 ALL = [f'C{i:02d}' for i in range(1, 21)]
 
